@@ -368,6 +368,11 @@ class RowEval:
                     if isinstance(v, Int) and base in ("ceil", "floor", "round"):
                         return Int(None)
                 return None
+            if base in ("dot", "matmul") and len(args) == 2:
+                a, b = self.ev(args[0], env, depth), self.ev(args[1], env, depth)
+                if isinstance(a, Arr):
+                    return Arr(a.rows, b.cols if isinstance(b, Arr) else None, a.ndim)
+                return None
             if base == "accumarray" and args:
                 return Arr(None)
             if base == "reshape" and len(args) >= 2:
